@@ -575,6 +575,47 @@ func (g *Gen) unionValue(parent reflect.Value, f *FieldInfo, yt *yang.YangType, 
 	return reflect.Value{}, false
 }
 
+// unionFromCanon builds the union value (interface type t, field f of parent) that a canonical
+// scalar ("enum:RED", "int64:5", "string:x") denotes, through the generated To_<Union> helper.
+func (g *Gen) unionFromCanon(parent reflect.Value, f *FieldInfo, t reflect.Type, canon string) (reflect.Value, bool) {
+	conv := FindUnionConv(parent, t)
+	i := strings.Index(canon, ":")
+	if !conv.IsValid() || i < 0 {
+		return reflect.Value{}, false
+	}
+	kind, pl := canon[:i], canon[i+1:]
+	var prim reflect.Value
+	if kind == "enum" {
+		var cands []reflect.Type
+		cands = append(cands, g.enumMap["/"+strings.Join(DataPath(f.Entry), "/")]...)
+		cands = append(cands, g.enumMap[f.Entry.Path()]...)
+		for _, et := range cands {
+			if n, ok := EnumValueByName(et, pl); ok {
+				prim = reflect.New(et).Elem()
+				prim.SetInt(n)
+				break
+			}
+		}
+	} else {
+		for k, pt := range primTypes {
+			if k.String() == kind {
+				prim = reflect.New(pt).Elem()
+				if !ParseCanonInto(prim, canon) {
+					return reflect.Value{}, false
+				}
+			}
+		}
+	}
+	if !prim.IsValid() {
+		return reflect.Value{}, false
+	}
+	out := conv.Call([]reflect.Value{prim})
+	if len(out) != 2 || !out[1].IsNil() {
+		return reflect.Value{}, false
+	}
+	return out[0], true
+}
+
 // FindUnionConv finds the generated To_<Union> method for interface type t on
 // the parent struct (addressable struct value).
 func FindUnionConv(parent reflect.Value, t reflect.Type) reflect.Value {
@@ -969,7 +1010,13 @@ func (g *Gen) fillDeferred(it deferredItem) {
 		}
 		fv := it.parent.Field(it.f.Idx)
 		if fv.Kind() == reflect.Interface {
-			g.Skipped["leafref-to-union"]++
+			// a reference to a union-typed target: the same member and value as a target leaf
+			if uv, ok := g.unionFromCanon(it.parent, it.f, fv.Type(), cands[g.Rng.Intn(len(cands))]); ok {
+				fv.Set(uv)
+				g.Tags["leafref-to-union"]++
+			} else {
+				g.Skipped["leafref-to-union"]++
+			}
 			return
 		}
 		if ParseCanonInto(fv, cands[g.Rng.Intn(len(cands))]) {
